@@ -9,11 +9,11 @@ CONSTANTS
   MaxCalls = 0
   NTerms = 3
   Family = "deep"
-  DropK1 = TRUE
+  DropK1 = FALSE
   Queries <- MCQueries
   FixEmptySnapshot = TRUE
   FixBoolAdvance = TRUE
-  FixShouldMin = FALSE
+  FixShouldMin = TRUE
   FirstAdvanceOK <- FirstAdvAlways
 VIEW View
 INVARIANT EnumIsHits
